@@ -62,6 +62,7 @@ func c06Special(t *verifrt.Tape) []string {
 		`SecRule ARGS "@endsWith %{MATCHED_VAR}" "id:173,phase:2,pass,nolog,chain"` + "\n" + `  SecRule MATCHED_VARS "@within %{tx.w1} %{tx.w2} evil" "t:lowercase"`,
 		// ENV is per transaction: what one request exported (setenv) is not there
 		// when the next one starts (174 reads before 175 writes; 176 reads after)
+		`SecRule ENV:PATH|ENV:HOME|ENV:GOFLAGS "@rx ." "id:177,phase:1,pass,log"`,
 		`SecRule ENV:simmark "@rx ." "id:174,phase:1,pass,log,msg:'env %{MATCHED_VAR}'"` + "\n" + `SecRule REQUEST_URI "@contains tok" "id:175,phase:1,pass,nolog,setenv:simmark=%{REQUEST_URI}"` + "\n" + `SecRule ENV:simmark "@contains tok" "id:176,phase:2,pass,nolog"`,
 	}
 	var out []string
